@@ -335,15 +335,36 @@ theorem leafBuild_get? {hs : Hashes} {extra : List (List String)} {b e : J} {k :
     obtain ⟨hd, hhd, hne⟩ := hav f List.mem_cons_self
     rw [remove_get? f e1 e hd k hhd hne (liftD_ok h2), g1]; rfl
 
-theorem multiBuild_get? {hs : Hashes} {extra : List (List String)} {k : String} (hk : PayloadKey k) :
+theorem lookup_withKind (orig : J) (l : Kvs) {k : String} (h : k ≠ "kind") : lookup k (withKind orig l) = lookup k l := by
+  unfold withKind
+  cases orig.get? "kind" with
+  | none => rfl
+  | some kv => exact lookup_insert_other _ _ h
+
+theorem lookup_withOwners (orig : J) (l : Kvs) {k : String} (h : k ≠ "metadata") :
+    lookup k (withOwners orig l) = lookup k l := by
+  unfold withOwners
+  cases ownerRefs orig with
+  | none => rfl
+  | some o => exact lookup_insert_other _ _ h
+
+theorem pseudoBody_get? (orig b : J) {k : String} (hkind : k ≠ "kind") (hmeta : k ≠ "metadata") :
+    (pseudoBody orig b).get? k = b.get? k := by
+  cases b with
+  | obj l =>
+    show lookup k (withOwners orig (withKind orig l)) = lookup k l
+    rw [lookup_withOwners orig _ hmeta, lookup_withKind orig _ hkind]
+  | _ => rfl
+
+theorem multiBuild_get? {hs : Hashes} {extra : List (List String)} {k : String} (hk : PayloadKey k) (orig : J) :
     ∀ (ls : List DiffBaseLeaf) (b e : J), (∀ l, l ∈ ls → AvoidKey k (leafFields l)) →
-      multiBuild hs extra b ls = .ok e → e.get? k = b.get? k
+      multiBuild hs extra orig b ls = .ok e → e.get? k = b.get? k
   | [], b, e, _, h => by simp [multiBuild] at h; subst h; rfl
   | l :: ls, b, e, hav, h => by
     simp only [multiBuild] at h
     obtain ⟨e1, h1, h2⟩ := bind_ok h
-    rw [multiBuild_get? hk ls e1 e (fun l' hl' => hav l' (List.mem_cons_of_mem _ hl')) h2,
-      leafBuild_get? l hk (hav l List.mem_cons_self) h1]
+    rw [multiBuild_get? hk orig ls e1 e (fun l' hl' => hav l' (List.mem_cons_of_mem _ hl')) h2,
+      leafBuild_get? l hk (hav l List.mem_cons_self) h1, pseudoBody_get? orig b hk.2.1 hk.2.2.1]
 
 theorem diffbaseBuild_get? {hs : Hashes} {extra : List (List String)} {kvs : Kvs} {e : J} {k : String}
     (d : DiffBaseCfg) (hk : PayloadKey k) (hav : AvoidKey k (diffbaseFields d))
@@ -354,7 +375,7 @@ theorem diffbaseBuild_get? {hs : Hashes} {extra : List (List String)} {kvs : Kvs
     simp only [diffbaseBuild] at h
     obtain ⟨e1, h1, h2⟩ := bind_ok h
     have g1 := baseBuild_get? hk (fun _ hf => by cases hf) h1
-    rw [multiBuild_get? hk ls e1 e (fun l hl f hf => hav f (List.mem_flatMap.2 ⟨l, hl, hf⟩)) h2, g1]
+    rw [multiBuild_get? hk _ ls e1 e (fun l hl f hf => hav f (List.mem_flatMap.2 ⟨l, hl, hf⟩)) h2, g1]
 
 theorem progressClear_get? {k : String} (hk : PayloadKey k) : ∀ (p : ProgressCfg) (e e' : J),
     AvoidKey k (progressFields p) → progressClear e p = .ok e' → e'.get? k = e.get? k
